@@ -9,6 +9,9 @@ set -u
 ID=$1; SRC=$2; NAME=$3; shift 3; NEEDS="$*"
 OUT=/verif/seeded/$ID-$NAME
 mkdir -p $OUT
+if [ "$(realpath $SRC)" = "$(realpath $OUT)" ]; then   # re-confirmation of a kept seed: work from a copy
+  T=$(mktemp -d /tmp/reseed.XXXXXX); cp -r $SRC/patch.diff $SRC/demo $T/; SRC=$T
+fi
 cp $SRC/patch.diff $OUT/patch.diff
 rm -rf $OUT/demo; cp -r $SRC/demo $OUT/demo 2>/dev/null
 find $OUT/demo -type f \( -name '*.o' -o -perm -u+x ! -name '*.sh' ! -name '*.py' \) -size +100k -delete 2>/dev/null
@@ -17,6 +20,7 @@ git -C /repo worktree add --detach $W HEAD >/dev/null 2>&1 || { echo "worktree f
 cp -r $OUT/demo $W/demo
 # demos reference their original worktree path; rewrite to the scratch path
 grep -rl "$SRC" $W/demo 2>/dev/null | xargs -r sed -i "s#$SRC#$W#g"
+grep -rlE "/tmp/seed-$ID-[0-9]+" $W/demo 2>/dev/null | xargs -r sed -i -E "s#/tmp/seed-$ID-[0-9]+#$W#g"
 build() { cmake -G Ninja -S $W -B $W/_build -DEVENT__DISABLE_BENCHMARK=ON -DEVENT__DISABLE_SAMPLES=ON >/dev/null 2>&1 && cmake --build $W/_build -j16 >$W/build.log 2>&1; }
 build || { echo "clean build failed"; tail $W/build.log; }
 ( cd $W/demo && timeout 600 bash ./run.sh ) >$OUT/demo_clean.log 2>&1; DEMO_CLEAN=$?
